@@ -751,6 +751,14 @@ func (s *Script) Raw(line string) { s.sb.WriteString(line); s.sb.WriteByte('\n')
 
 func (s *Script) String() string { return s.sb.String() }
 
+// Drain returns the text emitted since the last Drain and clears the buffer
+// (names and declarations are remembered).
+func (s *Script) Drain() string {
+	t := s.sb.String()
+	s.sb.Reset()
+	return t
+}
+
 // FreeVars returns names of free variables (sorted) in the terms.
 func FreeVars(ts ...*Term) []*Term {
 	seen := map[int]bool{}
